@@ -356,7 +356,18 @@ def solve(ob: Obligation, timeout_ms=10000, use_cli=True) -> Verdict:
     for a in sym.str_axioms():
         s.add(a)
     s.add(z3.Not(ob.goal))
-    r = s.check()
+    # watchdog: z3's own timeout is not honoured inside some preprocessing / quantifier loops; interrupt from a thread
+    import threading
+
+    wd = threading.Timer(timeout_ms / 1000.0 * 1.5 + 5.0, lambda: z3.main_ctx().interrupt())
+    wd.daemon = True
+    wd.start()
+    try:
+        r = s.check()
+    except z3.Z3Exception:
+        r = z3.unknown
+    finally:
+        wd.cancel()
     dt = time.time() - t0
     if r == z3.unsat:
         return Verdict(ob, "discharged", "z3-%s(api)" % z3.get_version_string(), dt)
